@@ -122,7 +122,7 @@ func opsFor(d *Desc, nd *Node, r *hx.Rand) []Op {
 			Op{N: "SAdd", K: i64(present())}, Op{N: "SAdd", K: i64(absent)}, Op{N: "SClear"},
 			Op{N: "SDiscard", K: i64(present())}, Op{N: "SDiscard", K: i64(absent)}, Op{N: "SPop"},
 			Op{N: "SRemove", K: i64(present())}, Op{N: "SRemove", K: i64(absent)},
-			Op{N: "SUpdate", Kss: [][]int64{}}, Op{N: "SUpdate", Kss: [][]int64{{}, {}}}, Op{N: "SUpdate", Kss: [][]int64{{present()}, {absent, 556}}},
+			Op{N: "SUpdate", Kss: [][]int64{}}, Op{N: "SUpdate", Kss: [][]int64{{}, {}}}, Op{N: "SUpdate", Kss: [][]int64{{present()}, {absent, 556}}}, Op{N: "SUpdate", Kss: [][]int64{{present(), absent}}}, Op{N: "SUpdate", Kss: [][]int64{{}}},
 			Op{N: "GoSInsert", K: i64(hx.Pick(r, []int64{present(), absent})), V: nil},
 			Op{N: "GoSDelete", K: i64(present())}, Op{N: "GoSDelete", K: i64(absent)}, Op{N: "GoSClear"}, Op{N: "XSetField", V: pv(pay())})
 	default: // tuple, struct, func, bound: no mutators; item and field assignment must fail
@@ -260,6 +260,9 @@ func vias(in *Instance, id int, op Op) []string {
 	}
 	name, _, _, isMethod := spell(in, op)
 	out := []string{"mod"}
+	if op.N == "SUpdate" && len(op.Kss) == 1 {
+		out = append(out, "goinsertall") // Go API (*Set).InsertAll(iterator)
+	}
 	if isMethod {
 		out = append(out, "api")
 		for _, nd := range in.D.Nodes {
@@ -304,6 +307,15 @@ func apply(in *Instance, id int, op Op, via string) (err error) {
 	if via == "go" {
 		e, _ := applyGo(in, id, op)
 		return e
+	}
+	if via == "goinsertall" {
+		var es []starlark.Value
+		for _, k := range op.Kss[0] {
+			es = append(es, starlark.MakeInt64(k))
+		}
+		it := starlark.NewList(es).Iterate()
+		defer it.Done()
+		return in.Objs[id].(*starlark.Set).InsertAll(it)
 	}
 	name, a, b, _ := spell(in, op)
 	if a == nil {
